@@ -5,7 +5,7 @@
     gcd_ext_in_place; ModRingLehmerInst.v) *)
 Require Import FastZ.
 From Dashu Require Import Base.Prelude Int.ModRingSpec Int.ModRingPowModel Int.ModRingModel Int.ModRingInst
-  Int.ModRingWords Int.ModRingConv Int.ModRingConvInst Int.GrlLehmer Int.ModRingLehmer Int.ModRingLehmerInst Int.ModRingReducerWords.
+  Int.ModRingWords Int.ModRingConv Int.ModRingConvInst Int.GrlLehmer Int.ModRingLehmer Int.ModRingLehmerInst Int.ModRingReducerWords Int.ModRingClone.
 
 Extraction "model.ml"
   reduce_spec add_spec sub_spec mul_spec neg_spec dbl_spec sqr_spec powm inv_spec inv_ok div_spec
@@ -13,4 +13,4 @@ Extraction "model.ml"
   run_reduce run_bin run_un run_pow run_pow_prefix run_inv run_eq
   run_rd run_rd_inv run_rd_check run_rd_modulus i_new r_shift r_kind
   hrun_reduce hrun_bin hrun_un hrun_pow hrun_inv hrun_eq hrun_transform
-  hrun_inv_src hrun_div_src hrun_gcd_probe hrun_rd_lin.
+  hrun_inv_src hrun_div_src hrun_gcd_probe hrun_rd_lin run_clone_from.
